@@ -167,8 +167,15 @@ def rule_mixed(ctx):
         if isinstance(st, ast.Assign) and isinstance(st.targets[0], ast.Name):
             name = st.targets[0].id
             v = st.value
-            if isinstance(v, ast.Compare) and len(v.ops) == 1 and norm(v.left) == Tn:
+            if isinstance(v, ast.Compare) and len(v.ops) == 1 and str(norm(v.left)) == Tn:
                 masks[name] = (type(v.ops[0]).__name__, ev.expr(v.comparators[0], env, f, 0), st)
+                continue
+            if isinstance(v, ast.Compare) and len(v.ops) == 1 and str(norm(v.comparators[0])) == Tn:
+                # mirrored spelling: X > T  is  T < X
+                mirror = {"Lt": "Gt", "LtE": "GtE", "Gt": "Lt", "GtE": "LtE"}.get(type(v.ops[0]).__name__)
+                if mirror is None:
+                    raise AnalysisError("e_eq_mixed_mk: mask %s is not an ordering comparison" % norm(v))
+                masks[name] = (mirror, ev.expr(v.left, env, f, 0), st)
                 continue
             if isinstance(v, ast.Call) and dotted(v.func) in ("e_eq_water_mk", "e_eq_ice_mk"):
                 phase[name] = "water" if "water" in dotted(v.func) else "ice"
